@@ -26,7 +26,8 @@ Verdict(r) ==
    \* no gap, no overlap: the next start is the previous end (bit-identical, or equal up to 4 ulp where the code computes the
    \* two by different but equivalent expressions)
    \cup V(\A k \in 1 .. N - 1 : a[k + 1].s = a[k].e \/ a[k + 1].contig, "tile.contiguous")
-   \cup V(\A k \in 1 .. N - 1 : a[k + 1].u0 = a[k].ue, "tile.chain_values")
+   \* (chain_ok: inside a block of the all-at-once ParaDiag controller the values agree up to its solver tolerance only)
+   \cup V(\A k \in 1 .. N - 1 : a[k + 1].u0 = a[k].ue \/ a[k + 1].chain_ok, "tile.chain_values")
    \* no step starts at or beyond Tend -- "up to rounding": a start inside the rounding window of Tend counts as "at Tend"
    \cup V(\A k \in 1 .. N : a[k].s < r.tend /\ ~ a[k].near_tend, "tile.no_start_at_or_beyond_tend")
    \cup V(N > 0 /\ (a[N].e >= r.tend \/ a[N].end_near_tend), "tile.reaches_tend")
